@@ -11,10 +11,13 @@ export VERIF_SHRINK_S=2
 [ $# -gt 0 ] || set -- $(ls seeded | grep '^C')
 for name in "$@"; do
   prop=$(echo $name | cut -c1-3)
-  git -C $WT checkout -q -- . 
-  if ! git -C $WT apply "$PWD/seeded/$name/patch.diff" 2>/dev/null; then
-    if ! git -C $WT apply -3 "$PWD/seeded/$name/patch.diff" 2>/dev/null; then echo "$name: patch does not apply"; git -C $WT checkout -q -- . ; git -C $WT reset -q; continue; fi
-    git -C $WT reset -q
+  git -C $WT reset -q --hard
+  PATCH="$PWD/seeded/$name/patch.diff"
+  if ! git -C $WT apply "$PATCH" 2>/dev/null; then
+    # the patch was written against an earlier commit: try with fuzz before giving up
+    if ! (cd $WT && patch -p1 -s -F3 --no-backup-if-mismatch < "$PATCH" >/dev/null 2>&1); then
+      echo "$name: patch does not apply"; git -C $WT reset -q --hard; git -C $WT clean -fdq; continue
+    fi
   fi
   out=$(XGCM_REPO=$WT ./check $prop quick 2>&1); rc=$?
   if [ $rc -eq 1 ]; then echo "$name: caught ($(echo "$out" | grep -E '^(violation|pinned|regression)' | head -1 | cut -c1-90))"; elif [ $rc -eq 0 ]; then echo "$name: MISSED"; else echo "$name: rc=$rc $(echo "$out" | tail -1 | cut -c1-120)"; fi
